@@ -111,3 +111,44 @@ package minter
 //@   loop 1 invariant total: totalPower.val == candSum(newCandidates, len(newCandidates), cs)
 //@ spec candSum(l []*candidates.Candidate, n int, c *candidates.Candidates) int = n <= 0 ? 0 : candSum(l, n-1, c) + totalStakeOf(c, l[n-1].PubKey)
 
+
+//@ # ---------------------------------------------------------------- C16/C01/C07: what matures at a height is paid out, once, to its owner
+//@ # History ghosts set (ASSUMED clause) by FrozenFunds.GetFrozenFunds: the bucket fetched for this block and the balances
+//@ # at that moment. What BeginBlock does before that point is outside this contract (its callees are verified
+//@ # separately; their preconditions are assumed here).
+//@ history fetched() bool
+//@ history maturing() *frozenfunds.Model
+//@ history balAtFetch(a *accounts.Accounts, c types.CoinID, o types.Address) int
+//@ spec moveOf(it frozenfunds.Item) int = len(it.MoveToCandidate) > 0 ? it.MoveToCandidate[0] : 0
+//@ func (*Blockchain).BeginBlock
+//@   serves C16 C01 C07
+//@   splitreturns
+//@   let sd = blockchain.stateDeliver
+//@   let m = maturing()
+//@   let k = anyI()
+//@   requires blockchain != nil
+//@   assumes history: !fetched()
+//@   assumespre (*AppDB).Emission: what BeginBlock does before the frozen funds are fetched is outside this contract; the callee is verified separately
+//@   assumespre (*App).SetReward: what BeginBlock does before the frozen funds are fetched is outside this contract; the callee is verified separately
+//@   assumespre (*AppDB).UpdatePriceFix: what BeginBlock does before the frozen funds are fetched is outside this contract; the callee is verified separately
+//@   assumespre (*AppDB).UpdatePriceBug: what BeginBlock does before the frozen funds are fetched is outside this contract; the callee is verified separately
+//@   assumespre (*Blockchain).calculatePowers: what BeginBlock does before the frozen funds are fetched is outside this contract; the callee is verified separately
+//@   assumespre (*Blockchain).isApplicationHalted: what BeginBlock does before the frozen funds are fetched is outside this contract; the callee is verified separately
+//@   assumespre (*Validator).SetPresent: what BeginBlock does before the frozen funds are fetched is outside this contract; the callee is verified separately
+//@   assumespre (*Validators).SetValidatorAbsent: what BeginBlock does before the frozen funds are fetched is outside this contract; the callee is verified separately
+//@   assumespre (*Validators).SetValidatorPresent: what BeginBlock does before the frozen funds are fetched is outside this contract; the callee is verified separately
+//@   assumespre (*FrozenFunds).PunishFrozenFundsWithID: what BeginBlock does before the frozen funds are fetched is outside this contract; the callee is verified separately
+//@   assumespre (*Validators).PunishByzantineValidator: what BeginBlock does before the frozen funds are fetched is outside this contract; the callee is verified separately
+//@   assumespre (*Candidates).PunishByzantineCandidate: what BeginBlock does before the frozen funds are fetched is outside this contract; the callee is verified separately
+//@   assumespre (*FrozenFunds).GetFrozenFunds: module wiring (state invariant): the deliver state and its modules exist and share one bus
+//@   assumespre (*FrozenFunds).Delete: module wiring (state invariant): the deliver state and its modules exist and share one bus; stored funds have a value
+//@   assumespre (*Accounts).AddBalance: module wiring (state invariant): the deliver state and its modules exist and share one bus; stored funds have a value
+//@   assumespre (*Candidates).Delegate/0: module wiring (state invariant): the deliver state and its modules exist and share one bus
+//@   # stated for an arbitrary item anyI() of the bucket: an item that is not a stake move is credited in full to its owner
+//@   # in its coin (at least: other items of the same owner and coin add to it; balances only grow in this loop)
+//@   ensures [C16,C01] released: fetched() && m != nil && 0 <= k && k < len(m.List) && moveOf(m.List[k]) == 0 ==> bal(sd.Accounts, m.List[k].Coin, m.List[k].Address) >= balAtFetch(sd.Accounts, m.List[k].Coin, m.List[k].Address) + m.List[k].Value.val
+//@   ensures [C16,C01] onlygrows: fetched() ==> forall c types.CoinID, a types.Address :: bal(sd.Accounts, c, a) >= balAtFetch(sd.Accounts, c, a)
+//@   loop 2 invariant idx: -1 <= rangeindex && (rangeindex < len(frozenFunds.List) || (rangeindex == -1 && len(frozenFunds.List) == 0)) && frozenFunds == m && fetched()
+//@   loop 2 invariant values: forall i int :: 0 <= i && i < len(frozenFunds.List) ==> frozenFunds.List[i].Value != nil && allocated(frozenFunds.List[i].Value) && frozenFunds.List[i].Value.val >= 0
+//@   loop 2 invariant mono: forall c types.CoinID, a types.Address :: bal(blockchain.stateDeliver.Accounts, c, a) >= balAtFetch(blockchain.stateDeliver.Accounts, c, a)
+//@   loop 2 invariant paid: 0 <= k && k <= rangeindex && moveOf(frozenFunds.List[k]) == 0 ==> bal(blockchain.stateDeliver.Accounts, frozenFunds.List[k].Coin, frozenFunds.List[k].Address) >= balAtFetch(blockchain.stateDeliver.Accounts, frozenFunds.List[k].Coin, frozenFunds.List[k].Address) + frozenFunds.List[k].Value.val
